@@ -101,10 +101,24 @@ def run(prop: str, path: str) -> int:
         else:
             real = utils.get_binop_instruction(op)[1](*f["inputs"])
         return _say(prop, path, repr(real) == f.get("fold"), f"fold({f['inputs']}) = {real!r}, chip computes {f.get('chip')}")
+    if kind in ("share_link", "concrete"):
+        from stationeers_pytrapic.types import decode_data, encode_data
+
+        doc = d.get("doc") or (d.get("problem") or {}).get("doc")
+        if doc is None:
+            print("no document recorded (a symbolic-text obligation): re-run the check")
+            return 0
+        try:
+            enc = encode_data(doc)
+            bad = [ch for ch in enc if not (ch.isascii() and (ch.isalnum() or ch in "-_"))]
+            back = decode_data(enc)
+            return _say(prop, path, bool(bad) or back != doc, f"url-unsafe characters {bad[:5]}" if bad else ("round trip differs" if back != doc else "round trip ok"))
+        except Exception as e:
+            return _say(prop, path, True, f"round trip raises {type(e).__name__}: {str(e)[:120]}")
     if kind == "directive":
         from .props import c15
 
-        r = c15.replay(d["problem"]["text"], d["base"])
+        r = c15.replay(d["problem"]["text"], d["base"], d.get("call", "plain"))
         return _say(prop, path, r is not None, str(r))
     print(json.dumps({k: v for k, v in d.items() if k != "sources"}, indent=1, default=str)[:2000])
     print("no concrete replay for this record kind; re-run the check")
